@@ -177,4 +177,75 @@ theorem transform_spec (tol : K) (axes : M33 K) (norms : Fin 3 → K) (c : M6 K)
       = setCijkl (cleanT4 tol (max4 (rot T (cijklGet c))) (rot T (cijklGet c))) := by
   simp only [transform, hT, tab4_eq]
 
+/-! ### completeness of the `Cijkl` setter's assertions -/
+
+/-- canonical representative of an index quadruple: Voigt pairs ordered `ab` with `a ≤ b`, each pair `i ≤ j`. -/
+def canon (t : Fin 3 × Fin 3 × Fin 3 × Fin 3) : Fin 3 × Fin 3 × Fin 3 × Fin 3 :=
+  let a := voigt t.1 t.2.1
+  let b := voigt t.2.2.1 t.2.2.2
+  if a ≤ b then ((pairOf a).1, (pairOf a).2, (pairOf b).1, (pairOf b).2)
+  else ((pairOf b).1, (pairOf b).2, (pairOf a).1, (pairOf a).2)
+
+def toIdx (t : Fin 3 × Fin 3 × Fin 3 × Fin 3) : Idx4 := (t.1.val, t.2.1.val, t.2.2.1.val, t.2.2.2.val)
+
+/-- every index quadruple is compared with its canonical representative by one of the unrolled assertions. -/
+theorem cijkl_set_checks_cover : ∀ t : Fin 3 × Fin 3 × Fin 3 × Fin 3,
+    canon t = t ∨ (toIdx (canon t), toIdx t) ∈ cijklSetChecks := by decide +kernel
+
+theorem canon_symm : ∀ t : Fin 3 × Fin 3 × Fin 3 × Fin 3,
+    canon (t.2.1, t.1, t.2.2.1, t.2.2.2) = canon t ∧ canon (t.1, t.2.1, t.2.2.2, t.2.2.1) = canon t ∧
+    canon (t.2.2.1, t.2.2.2, t.1, t.2.1) = canon t := by decide +kernel
+
+theorem at4_toIdx (C : T4 K) (t : Fin 3 × Fin 3 × Fin 3 × Fin 3) : at4 C (toIdx t) = C t.1 t.2.1 t.2.2.1 t.2.2.2 := by
+  simp only [at4, toIdx, fin3_val]
+
+/-- the assertions of the `Cijkl` setter are complete: a tensor that satisfies all of them exactly has the minor
+    and the major symmetries. -/
+theorem cijkl_setter_checks_complete (C : T4 K) (h : ∀ pq ∈ cijklSetChecks, at4 C pq.1 = at4 C pq.2) :
+    MinorSymm C ∧ MajorSymm C := by
+  have hc : ∀ t : Fin 3 × Fin 3 × Fin 3 × Fin 3,
+      C t.1 t.2.1 t.2.2.1 t.2.2.2 = C (canon t).1 (canon t).2.1 (canon t).2.2.1 (canon t).2.2.2 := by
+    intro t
+    rcases cijkl_set_checks_cover t with e | e
+    · rw [e]
+    · have := h _ e
+      simp only [at4_toIdx] at this
+      exact this.symm
+  refine ⟨fun i j k l => ⟨?_, ?_⟩, fun i j k l => ?_⟩
+  · have h1 := hc (i, j, k, l); have h2 := hc (j, i, k, l)
+    rw [(canon_symm (i, j, k, l)).1] at h2
+    simp only at h1 h2; rw [h1, h2]
+  · have h1 := hc (i, j, k, l); have h2 := hc (i, j, l, k)
+    rw [(canon_symm (i, j, k, l)).2.1] at h2
+    simp only at h1 h2; rw [h1, h2]
+  · have h1 := hc (i, j, k, l); have h2 := hc (k, l, i, j)
+    rw [(canon_symm (i, j, k, l)).2.2] at h2
+    simp only at h1 h2; rw [h1, h2]
+
+/-! ### the class invariant (stored 6x6 symmetric) is preserved by `transform` -/
+
+theorem cleanT4_major (tol mx : K) (C : T4 K) (h : MajorSymm C) : MajorSymm (cleanT4 tol mx C) := by
+  intro i j k l; simp only [cleanT4, h i j k l]
+
+theorem cijklSetRaw_symm (C : T4 K) (h : MajorSymm C) : Symm6 (cijklSetRaw C) := by
+  intro a b; rw [cijklSetRaw_eq, cijklSetRaw_eq]; exact h _ _ _ _
+
+theorem setCijkl_symm (C : T4 K) (h : MajorSymm C) (z : M6 K) (hz : setCijkl C = .ok z) : Symm6 z := by
+  unfold setCijkl at hz
+  split at hz
+  · cases hz
+  · split at hz
+    · cases hz
+    · exact setCij_symm _ z (cijklSetRaw_symm C h) hz
+
+theorem transform_symm6 (tol : K) (axes : M33 K) (norms : Fin 3 → K) (c z : M6 K) (hc : Symm6 c)
+    (hz : transform tol axes norms c = .ok z) : Symm6 z := by
+  unfold transform at hz
+  split at hz
+  · cases hz
+  · rename_i T hT
+    simp only [tab4_eq] at hz
+    refine setCijkl_symm _ (cleanT4_major _ _ _ (rot_major T ?_)) z hz
+    intro i j k l; simp only [cijklGet_eq]; exact hc _ _
+
 end Atomman.C11
